@@ -376,6 +376,25 @@ def check_reads(b, ref, ordered, r):
         vq[pkey(L[i], L[j])] = fr(x)
     if vq != ref.quad:
         return f'to_numpy_vectors quadratic {vq} != {ref.quad}'
+    # the same vectors without an explicit order (range labels: the index order is used as it is; otherwise the labels are
+    # sorted when they can be), with sorted indices
+    for kw in ({}, {'sort_indices': True}, {'sort_labels': False}):
+        try:
+            ld, (ir, ic, qd), off, labels = b.to_numpy_vectors(return_labels=True, **kw)
+        except Exception as e:  # noqa
+            return f'to_numpy_vectors({kw}) raised {type(e).__name__}: {e}'
+        labels = list(labels)
+        if sorted(map(lab, labels)) != sorted(map(lab, L)) or [fr(x) for x in ld] != [ref.lin[v] for v in labels] or fr(off) != ref.off:
+            return f'to_numpy_vectors({kw}) linear/offset/labels'
+        vq = {}
+        for i, j, x in zip(ir, ic, qd):
+            if pkey(labels[i], labels[j]) in vq or i == j:
+                return f'to_numpy_vectors({kw}) repeats a pair or lists a self-loop'
+            vq[pkey(labels[i], labels[j])] = fr(x)
+        if vq != ref.quad:
+            return f'to_numpy_vectors({kw}) quadratic {vq} != {ref.quad}'
+        if kw.get('sort_indices') and list(zip(map(int, ir), map(int, ic))) != sorted(zip(map(int, ir), map(int, ic))):
+            return 'to_numpy_vectors(sort_indices=True) indices not sorted'
     # energy of one sample (all paths describe the same function)
     if n:
         vals = [-1, 1] if ref.vt == 'SPIN' else [0, 1]
@@ -496,15 +515,36 @@ def gen_ignored_op(r, P, k):
     return ('nz', br, qr, iv, ii, io, cv, ci)
 
 
-def gen_op(r, ref, malformed, obj=False):
-    """returns (kind, args) in canonical Python values; biases are Fractions"""
+RANGE_OPS = ['al', 'sl', 'aq', 'aq', 'aq', 'aq', 'sq', 'sq', 'ri', 'ri', 'rv', 'av', 'rs', 'sc', 'of', 'cv', 'fx', 'ct', 'fl', 'rli',
+             'up', 'alf', 'aqf', 'ala', 'aqd', 'aqd', 'aqd', 'aqd', 'aqd', 'aqd', 'sci', 'nz']
+
+
+def gen_op(r, ref, malformed, obj=False, rmode=False):
+    """returns (kind, args) in canonical Python values; biases are Fractions.
+    `rmode`: the history keeps the model RANGE-labelled (labels 0..n-1 in order) as far as the op allows - new labels are the
+    next integer, removals prefer the last variable -, which is the precondition of the index-level fast paths of the array
+    back-ends (`add_quadratic_from_dense`, `add_linear_from_array`, `to_numpy_vectors` without reindexing)"""
     L = ref.labels
-    def anyl():
-        return r.choice(LABELS)
-    def inl():
-        return r.choice(L) if L and r.random() < .85 else anyl()
-    k = r.choice(['al', 'al', 'sl', 'aq', 'aq', 'aq', 'sq', 'sq', 'ri', 'rv', 'av', 'rs', 'sc', 'of', 'cv', 'fx', 'ct', 'fl',
-                  'rl', 'rl', 'rli', 'cl', 'up', 'alf', 'aqf', 'ala', 'aqd', 'sci', 'sci', 'nz', 'nz'])
+    if rmode and not malformed:
+        nxt = len(L) if is_range(L) else max([x for x in L if isinstance(x, int)] + [-1]) + 1
+        def anyl():
+            return r.choice(L + [nxt, nxt]) if r.random() < .9 else r.choice(LABELS)
+        def inl():
+            return r.choice(L) if L and r.random() < .85 else anyl()
+        k = r.choice(RANGE_OPS)
+        if k in ('rv', 'fx') and L and r.random() < .7:
+            return (k, L[-1]) if k == 'rv' else (k, L[-1], F(r.choice([-1, 0, 1, 1, 2, 3]), r.choice([1, 1, 2])))
+        if k == 'av' and r.random() < .6:
+            return (k, r.choice([None, nxt]), q8(r))
+        if k == 'ct' and len(L) >= 2 and r.random() < .6:
+            return (k, r.choice(L[:-1]), L[-1])       # the last variable is removed: the labels stay a range
+    else:
+        def anyl():
+            return r.choice(LABELS)
+        def inl():
+            return r.choice(L) if L and r.random() < .85 else anyl()
+        k = r.choice(['al', 'al', 'sl', 'aq', 'aq', 'aq', 'sq', 'sq', 'ri', 'rv', 'av', 'rs', 'sc', 'of', 'cv', 'fx', 'ct', 'fl',
+                      'rl', 'rl', 'rli', 'cl', 'up', 'alf', 'aqf', 'ala', 'aqd', 'sci', 'sci', 'nz', 'nz'])
     if k in ('sci', 'nz') and not malformed:
         return gen_ignored_op(r, ref, k)
     if malformed:
@@ -622,7 +662,20 @@ def gen_op(r, ref, malformed, obj=False):
         rng_lab = L == list(range(len(L)))
         if rng_lab and r.random() < .5:
             n = len(L) + r.randint(1, 2)          # larger than a range-labelled model: the native model is resized
-        d = [[q8(r) if (i != j and r.random() < .6) else F(0) for j in range(n)] for i in range(n)]
+        elif rng_lab and rmode:
+            n = r.choice([len(L), len(L), r.randint(0, len(L))])     # the whole model / its leading block
+        dens = r.choice([.6, .6, .25, 1.0]) if rmode else .6
+        d = [[q8(r) if (i != j and r.random() < dens) else F(0) for j in range(n)] for i in range(n)]
+        if rmode and rng_lab and ref.quad and r.random() < .6:
+            # aim at interactions the model already holds (upper entry, lower entry, or split over both) and leave most other
+            # pairs alone: whether a term can be appended or has to be merged depends on where the pair sits in both neighbourhoods
+            if r.random() < .5:
+                d = [[F(0)] * n for _ in range(n)]
+            for kk in r.sample(sorted(ref.quad, key=lambda s: sorted(s)), r.randint(1, min(3, len(ref.quad)))):
+                i, j = sorted(kk)
+                if j < n:
+                    x = q8(r) or F(3, 8)
+                    d[i][j], d[j][i] = r.choice([(x, F(0)), (F(0), x), (x, x), (x - F(1, 4), F(1, 4)), (-ref.quad[kk], F(0))])
         if n and r.random() < (.4 if rng_lab and n > len(L) else .1):
             # rejected for its diagonal; when the matrix is larger than the model the rejection has to come before the
             # resize (a rejected call leaves the model unchanged): first / last / any row
@@ -941,8 +994,9 @@ def repro_script(dt, vt0, hist, tail):
     return '\n'.join(head + hist + tail) + '\n'
 
 
-def bqm_history(ctx, r, dt, nops, lines, expect, meta, malformed_rate, script=None, vt0=None):
-    """`script` = [(mode in 'd' | 'v', op), …] replaces the random choices (small-scope exhaustive sweep)"""
+def bqm_history(ctx, r, dt, nops, lines, expect, meta, malformed_rate, script=None, vt0=None, rmode=False, reads_always=False):
+    """`script` = [(mode in 'd' | 'v', op), …] replaces the random choices (small-scope exhaustive sweep);
+    `rmode` = range-labelled history (see `gen_op`); `reads_always` = every read path after every step"""
     vt0 = vt0 or r.choice(['SPIN', 'BINARY'])
     if script is not None:
         nops = len(script)
@@ -959,6 +1013,8 @@ def bqm_history(ctx, r, dt, nops, lines, expect, meta, malformed_rate, script=No
         malformed = r.random() < malformed_rate
         # through which object?
         mode = r.random() if script is None else (.1 if script[step][0] == 'v' else .9)
+        if rmode and script is None and mode < .4 and r.random() < .6:
+            mode = .9            # the index-level adders exist on the model only
         via, obj, name = 'd', b, 'b'
         if mode < .3:
             T = OTHER[ref.vt]
@@ -974,7 +1030,7 @@ def bqm_history(ctx, r, dt, nops, lines, expect, meta, malformed_rate, script=No
         tv = ref.vt if via == 'd' else ('SPIN' if via == 'vs' else 'BINARY')
         if dt == 'obj' and ordered is False:
             ref.labels = list(b.variables)     # order is the object's own (not promised by C04)
-        op = gen_op(r, ref.convert(tv), malformed, obj=(dt == 'obj')) if script is None else script[step][1]
+        op = gen_op(r, ref.convert(tv), malformed, obj=(dt == 'obj'), rmode=rmode) if script is None else script[step][1]
         k = op[0]
         before = ref.copy()
         # ---- expected result by algebra
@@ -1033,6 +1089,18 @@ def bqm_history(ctx, r, dt, nops, lines, expect, meta, malformed_rate, script=No
             ctx.tick('exc:' + type(exc).__name__)
         if k in ('aqd', 'ala') and via == 'd' and is_range(before.labels) and len(op[1]) > len(before.labels):
             ctx.tick(f'{k}:larger-than-range-model' + (':rejected' if exc is not None else ':resized'))
+        if k == 'aqd' and via == 'd' and exc is None and is_range(before.labels):
+            # which branch of QuadraticModelBase::add_quadratic_from_dense the call took, and where the pairs it touched sat
+            ctx.tick('aqd:branch:' + ('is_linear (append)' if not before.quad else 'has interactions (sorted insert)'))
+            d_, n_ = op[1], len(op[1])
+            for i_ in range(n_):
+                for j_ in range(i_ + 1, n_):
+                    if d_[i_][j_] + d_[j_][i_] != 0:
+                        if frozenset((i_, j_)) not in before.quad:
+                            ctx.tick('aqd:term:new-pair' + (':in-model-with-interactions' if before.quad else ''))
+                        else:
+                            last = all(max(before.labels.index(w) for w, _ in before.nbrs(a_)) == c_ for a_, c_ in ((i_, j_), (j_, i_)))
+                            ctx.tick('aqd:term:existing-pair:' + ('last-of-both-neighbourhoods' if last else 'inside-a-neighbourhood'))
         site = ('BQM.' if via == 'd' else 'VartypeView.') + SITE[k] + ('' if dt != 'obj' else '[object]')
         if len(b.variables) != b.num_variables:
             # label list and native model out of step: any further read may abort the interpreter (D32)
@@ -1128,7 +1196,7 @@ def bqm_history(ctx, r, dt, nops, lines, expect, meta, malformed_rate, script=No
                 meta.append((dt, 'pyBQM load after ' + src, list(hist[-12:])))
                 psync = True
         # (iii) read paths, on the model and through its views
-        if (script is None and r.random() < .35) or step == nops - 1:
+        if (script is None and r.random() < .35) or step == nops - 1 or reads_always or (k in ('aqd', 'ala', 'rs') and via == 'd'):
             for T, o2 in ((ref.vt, b), (OTHER[ref.vt], b.spin if ref.vt == 'BINARY' else b.binary)):
                 try:
                     bad = check_reads(o2, ref.convert(T), ordered, r)
@@ -1189,10 +1257,11 @@ def run(ctx):
     for dt in ('f64', 'f32', 'obj'):
         lines, expect, meta = [], [], []
         for _ in range(nh):
-            bqm_history(ctx, r, dt, r.randint(1, 40), lines, expect, meta, .1)
+            bqm_history(ctx, r, dt, r.randint(1, 40), lines, expect, meta, .1, rmode=(r.random() < .3))
             if len([f for f in ctx.failures if f['kind'] == 'property']) >= 60:
                 break
         compare(ctx, 'bqmdriver', lines, expect, meta, f'BQM[{dt}] vs Lean Bqm')
+    dense_sweep(ctx, r)
     if not ctx.quick:
         exhaustive(ctx, r)
     from harness.props import c04_qm
@@ -1202,6 +1271,37 @@ def run(ctx):
     bq = lambda code: any(k.split(':')[0] == code and k.split(':')[1:2] in (['d'], ['view']) for k in ctx.hist) or (code == 'sc' and any(k.startswith('sci:') for k in ctx.hist))
     qq = lambda code: any(k == 'qm:' + code or k.startswith('qm:' + code + ':') for k in ctx.hist)
     c04_alphabet.alphabet_check(ctx, {'BinaryQuadraticModel': bq, 'QuadraticModel': qq})
+
+
+def dense_sweep(ctx, r):
+    """small scope, every run: every graph on the range labels 0, 1, 2 (optionally a 4th variable tied to 0 or 2, so that a pair
+    of the leading block is or is not the last entry of a neighbourhood) x every non-empty set of pairs named by a 3 x 3 dense
+    matrix x the entry used (upper / lower / split) x float64 / float32 x both vartypes; every read path after every step"""
+    pairs = [(0, 1), (0, 2), (1, 2)]
+    lines, expect, meta = [], [], []
+    n = 0
+    for dt in ('f64', 'f32'):
+        for vt0 in ('SPIN', 'BINARY'):
+            for g in range(8):
+                for extra in (None, (0, 3), (2, 3)):
+                    for dset in range(1, 8):
+                        for place in ('upper', 'lower', 'split'):
+                            script = [('d', ('rs', 4 if extra else 3))]
+                            es = [pq for i, pq in enumerate(pairs) if g >> i & 1] + ([extra] if extra else [])
+                            r.shuffle(es)
+                            script += [('d', ('aq',) + (pq if r.random() < .5 else pq[::-1]) + (F(r.choice([-3, -1, 1, 2, 5]), 4),)) for pq in es]
+                            d = [[F(0)] * 3 for _ in range(3)]
+                            for i, (u, v) in enumerate(pairs):
+                                if dset >> i & 1:
+                                    x = F(r.choice([-5, -2, 1, 3, 6]), 4)
+                                    d[u][v], d[v][u] = {'upper': (x, F(0)), 'lower': (F(0), x), 'split': (x - F(1, 2), F(1, 2))}[place]
+                            script.append(('d', ('aqd', d)))
+                            if r.random() < .5:
+                                script.append(('d', r.choice([('aq', 0, 1, F(1, 4)), ('sq', 1, 2, F(-1, 2)), ('ri', 0, 2), ('rv', None), ('aqd', d)])))
+                            bqm_history(ctx, r, dt, len(script), lines, expect, meta, 0, script=script, vt0=vt0, reads_always=True)
+                            n += 1
+    compare(ctx, 'bqmdriver', lines, expect, meta, 'BQM vs Lean Bqm (dense sweep)')
+    ctx.extra['dense_sweep_histories'] = n
 
 
 def exhaustive(ctx, r):
